@@ -320,4 +320,22 @@ theorem propagation_past_redefinition_refuted :
   ⟨Propagate.past_redefinition_output, Propagate.past_redefinition_before, Propagate.past_redefinition_after,
    Propagate.past_redefinition_not_safe⟩
 
+/-- PARTIAL soundness of `register_propagation` on one basic block.  `SafeBlock b` (decidable; computed by running the
+    model of the pass on `b`) says that EVERY change the pass makes on `b` is of the kind its comments promise: the
+    definition `x := e` is live and precedes the use, `e` is pure (no invoke, no `/`, `%`) and does not read `x`, no live
+    instruction between the definition and the use assigns `x` or a register of `e`, `replace` only overwrites
+    occurrences of `x`, and a definition that is deleted is dead.  Then the block the pass leaves has the outcome of `b`
+    (returned value or exception, and the sequence of calls made) for EVERY meaning of the operators and calls
+    (`Sem`: any total meaning of the operators other than `/`, `%`), in every environment and world. -/
+theorem propagate_sound_partial (S : Propagate.Sem) (b : Propagate.Block) (h : Propagate.SafeBlock b)
+    (ρ : Propagate.Env) (w : Propagate.World) :
+    Propagate.run S ρ w (Propagate.propagate b).stmts = Propagate.run S ρ w b.stmts :=
+  Propagate.propagate_sound S b h ρ w
+
+/-- non-vacuity: `v0 = p10 + p11; v1 = v0 * v0; v2 = v1 - 1; return v2` is a `SafeBlock`, and the pass folds it into
+    `return ((p10 + p11) * (p10 + p11)) - 1` -/
+theorem propagate_sound_nonvacuous : Propagate.SafeBlock Propagate.safeExample ∧
+    (Propagate.propagate Propagate.safeExample).stmts.length = 1 :=
+  ⟨Propagate.safeExample_safe.1, by rw [Propagate.safeExample_safe.2]; rfl⟩
+
 end AgVerif.C21
